@@ -440,8 +440,7 @@ func rtScenarios(r *vkit.R, g *vkit.Rand) []rtScenario {
 	return out
 }
 
-func realtimePhase(r *vkit.R) {
-	g := r.Rng.Fork("realtime")
+func realtimePhase(r *vkit.R, g *vkit.Rand) {
 	scs := rtScenarios(r, g)
 	alloc := allocRTScenarios(r, g)
 	r.Set("rt_count_limiters", len(scs))
